@@ -306,7 +306,14 @@ def impl_main(payload):
                         # a complex value whose parts underflowed looks real in double precision: ask for 20 digits with
                         # unbounded exponents before believing that the value is real
                         hv = sp.N(e.subs({X0: float(p[0]), X1: float(p[1])}), 20)
-                        ref.append(v.real if hv.is_real else None)
+                        # ... and the value must be well conditioned: sin(1e10**(2.5/X_1)) changes completely with the last
+                        # bit of its argument, so two correct evaluations may differ arbitrarily
+                        try:
+                            w = complex(f(*(p * (1 + 1e-12))))
+                            stable = abs(w - v) <= 1e-7 * (1 + abs(v))
+                        except Exception:  # noqa
+                            stable = False
+                        ref.append(v.real if (hv.is_real and stable) else None)
                     else:
                         ref.append(None)
                 except TO:
